@@ -127,7 +127,7 @@ def concrete_playback_batch(crate_dir, harnesses, prop, env_extra=None, extra=No
                 "--concrete-playback=print"] + (extra or [])
 
     def gen(h):
-        return C.run(base_cmd + ["--harness", h], cwd=scratch, env=env, timeout=timeout, mem_kb=14_000_000)[1]
+        return C.run(base_cmd + ["--harness", h], cwd=scratch, env=env, timeout=timeout, mem_kb=40_000_000)[1]
 
     # --concrete-playback is incompatible with -j: first harness alone (builds), the rest in a small pool
     outs = [gen(harnesses[0])]
